@@ -24,6 +24,23 @@ def rec_type(rng, depth):
     return t
 
 
+def optionalise_fields(rng, t, p=0.5):
+    """some record fields become option-type (option-encoded field contents below an indexed record node are where
+    simplify_optiontype's index-width cases are reached by a projection)"""
+    k = t[0]
+    if k in ('list', 'opt'):
+        return (k, optionalise_fields(rng, t[1], p))
+    if k == 'rec':
+        fs = []
+        for name, ft in t[1]:
+            ft = optionalise_fields(rng, ft, p)
+            if ft[0] != 'opt' and rng.random() < p:
+                ft = ('opt', ft)
+            fs.append((name, ft))
+        return ('rec', fs, t[2])
+    return t
+
+
 def fields_of(t):
     """names reachable by projecting through lists/options from the top"""
     k = t[0]
@@ -35,10 +52,12 @@ def fields_of(t):
 
 
 def cases(rng, tier):
-    n = 1000 if tier == 'quick' else 20000
+    n = 1600 if tier == 'quick' else 20000
     out = []
     for i in range(n):
         t = rec_type(rng, rng.choice([1, 2, 3]))
+        if rng.random() < 0.3:
+            t = optionalise_fields(rng, t)
         vals = G.rectangularise(rng, t, [G.gen_value(rng, t, 4) for _ in range(rng.choice([0, 1, 2, 3, 4]))], p=0.3)
         enc = G.Enc(rng)
         lay = G.encode_plain(enc, t, vals, False) if t[0] == 'rec' else G.encode(enc, t, vals)
